@@ -393,6 +393,31 @@ def viab_tol(scale):
 
 # ----------------------------------------------------------------------------- snapshots (non-mutation)
 
+def make_holder(members, declared=None):
+    """a ThetaHolder built through its PUBLIC interface (constructor + add_theta): the attribute that stores the samples is the
+    implementation's business (item 20/21: no knowledge of the current layout in an oracle path)"""
+    from batchie.core import ThetaHolder
+    members = list(members)
+    h = ThetaHolder(n_thetas=len(members) if declared is None else declared)
+    for t in members:
+        h.add_theta(t)
+    return h
+
+
+def snaps_differ(before, after, res=None):
+    """True iff an attribute that existed BEFORE has another value after.  Attributes that only appear afterwards (a lazily filled
+    private cache a refactor may add) are not a mutation of the observable state: counted, never a replay."""
+    if (isinstance(before, tuple) and isinstance(after, tuple) and before and after and before[0] == after[0]
+            and all(isinstance(x, tuple) and len(x) == 2 and isinstance(x[0], str) for x in before[1:] + after[1:]) and len(before) > 1):
+        b, a = dict(before[1:]), dict(after[1:])
+        if set(a) - set(b) and res is not None:
+            res.count("observed.new_attribute_after_call")
+        return any(k not in a or snaps_differ(v, a[k], res) for k, v in b.items())
+    if isinstance(before, list) and isinstance(after, list) and len(before) == len(after):
+        return any(snaps_differ(x, y, res) for x, y in zip(before, after))
+    return before != after
+
+
 def deep_snap(obj, depth=0):
     """bit-exact, order-preserving snapshot of EVERY attribute (enumerated by introspection, not by a hand-written list)"""
     if isinstance(obj, np.ndarray):
@@ -477,9 +502,9 @@ class Runner:
                     self.kept.append((raw_out, list(out), what))
         except Exception as e:  # noqa
             out = err_tok(e)
-        if snap_theta(self.kind, th) != b_th:
+        if snaps_differ(b_th, snap_theta(self.kind, th), self.res):
             self.fail("prediction mutated the posterior sample", {"method": what}, "theta arrays bit-identical before/after")
-        if snap_screen(base) != b_sc:
+        if snaps_differ(b_sc, snap_screen(base), self.res):
             self.fail("prediction mutated the screen", {"method": what}, "screen arrays bit-identical before/after")
         return out
 
@@ -501,8 +526,7 @@ def run_temporaries(R, case, raw, kind, thetas):
     scr = build_screen(dict(raw, pnames=["q%d" % (i % n_pl) for i in range(n)], mask=None))   # several (nearly) equal-sized plates
     plate_ids = np.asarray(scr.plate_ids).copy()
     masks = [np.array(m, dtype=bool) for m in case.get("tmp_masks", [])]
-    holder = ThetaHolder(n_thetas=len(thetas))
-    holder.thetas = list(thetas)
+    holder = make_holder(thetas)
     th = thetas[0]
     calls = [("predict_mean_all", lambda v, h: mm.predict_mean_all(v, h), 1), ("predict_viability_all", lambda v, h: mm.predict_viability_all(v, h), 1),
              ("predict_variance_all", lambda v, h: mm.predict_variance_all(v, h), 1),
@@ -556,8 +580,7 @@ def run_temporaries(R, case, raw, kind, thetas):
             except Exception:  # noqa
                 continue
             for combo in ([0, 0], [1, 0], [1, 1], [0, 1], [len(thetas) - 1, 0]):
-                h = ThetaHolder(n_thetas=L)            # the previous holder of this name dies here
-                h.thetas = [thetas[k] for k in combo]
+                h = make_holder([thetas[k] for k in combo])            # the previous holder of this name dies here
                 try:
                     with np.errstate(all="ignore"):
                         out = np.array(fn(scr, h), dtype=float)
@@ -633,8 +656,7 @@ def quick_results(case):
     model = case["model"] if case.get("kind") == "bigholder" else case["kind"]
     thetas = [theta_from_case(model, c) for c in case["thetas"]]
     base = build_screen(case["raw"])
-    holder = ThetaHolder(n_thetas=case.get("declared", len(thetas)))
-    holder.thetas = list(thetas[: case.get("held", len(thetas))])
+    holder = make_holder(thetas[: case.get("held", len(thetas))], case.get("declared", len(thetas)))
     out = {}
     calls = [("predict_mean_all", lambda: mm.predict_mean_all(base, holder)), ("predict_viability_all", lambda: mm.predict_viability_all(base, holder)),
              ("predict_variance_all", lambda: mm.predict_variance_all(base, holder)), ("predict_mean_avg", lambda: mm.predict_mean_avg(base, holder)),
@@ -665,7 +687,7 @@ def with_verbose(case, res, body):
         out = body()
         loud = quick_results(case)
     for k in quiet:
-        if quiet[k] != loud[k]:
+        if (snaps_differ(quiet[k], loud[k], res) if k in ("screen", "thetas") else quiet[k] != loud[k]):
             if k in ("screen", "thetas"):
                 res.fail("the %s differ(s) after the calls under verbose (DEBUG) logging" % k, case, "changed", "as without verbose logging",
                          signature="C09:verbose-logging")
@@ -883,9 +905,8 @@ def _run_case(case, res, lines):
 
     # ---- holders: stacked and averaged helpers ---------------------------------------------------
     declared = case["declared"]
-    holder = ThetaHolder(n_thetas=declared)
-    holder.thetas = list(thetas[: case["held"]])
-    held = holder.thetas
+    held = list(thetas[: case["held"]])
+    holder = make_holder(held, declared)
     complete = len(held) >= declared
     per = {}
     for what in ("mean", "viab", "var"):
@@ -917,7 +938,7 @@ def _run_case(case, res, lines):
                     avg = [float(x) for x in fn_avg(base, holder)]
             except Exception as e:  # noqa
                 avg = err_tok(e)
-        if [snap_theta(kind, t) for t in held] != snaps or snap_screen(base) != b_sc:
+        if snaps_differ(snaps, [snap_theta(kind, t) for t in held], res) or snaps_differ(b_sc, snap_screen(base), res):
             R.fail("predict_*_all/avg mutated a sample or the screen", {"method": what}, "bit-identical before/after")
         rows_ok = all(not isinstance(p, str) for p in per[what]) and complete
         has_nan = rows_ok and any(math.isnan(x) for p in per[what] for x in p)
@@ -970,7 +991,7 @@ def _run_case(case, res, lines):
                         R.fail("predict_%s_avg on a %s is not the corresponding entries of predict_%s_avg on the whole screen" % (what, name, what),
                                {"rows": [int(i) for i in idx][:12], "got": sub_avg if isinstance(sub_avg, str) else sub_avg[:8]}, want[:8],
                                signature="C09:helper-subset")
-                if snap_screen(base) != b_sc:
+                if snaps_differ(b_sc, snap_screen(base), res):
                     R.fail("predict_*_all/avg on a %s mutated the screen" % name, {"method": what}, "bit-identical before/after")
         hs = [theta_tok(kind, t) for t in held]
         hl = "c09.hold %s %%s %s %d %s %s" % (kind, what, declared, "-" if not hs else "/".join(hs), screen_toks(base))
@@ -1082,8 +1103,7 @@ def _run_bigholder(case, res, lines):
     L = len(thetas)
     base = build_screen(case["raw"])
     n = base.size
-    holder = ThetaHolder(n_thetas=L)
-    holder.thetas = list(thetas)
+    holder = make_holder(thetas)
     sel = np.array(case["mask"], dtype=bool)
     idx_sel = np.where(sel)[0]
     sids, tids = np.asarray(base.sample_ids), np.asarray(base.treatment_ids)
